@@ -337,8 +337,13 @@ def classify_expr(ctx, LF, f, e, depth=0, seen=None, narrow=None):
                 _VISITING.discard(t)
         if best is None:
             best = ("TEXT", "no object returned")
-        if best[0] == "SAME" and isinstance(fn, ast.Attribute):
-            return classify_expr(ctx, LF, f, fn.value, depth + 1, seen, narrow)
+        if isinstance(fn, ast.Attribute) and k in ("typed", "by_name"):
+            # what a getter hands out is reached through its receiver
+            recv = classify_expr(ctx, LF, f, fn.value, depth + 1, seen, narrow)
+            if best[0] == "SAME":
+                return recv
+            if best[0] in ("TREE", "LINK", "UNKNOWN") and recv[0] in ("LINK", "UNKNOWN"):
+                return recv if ORDER[recv[0]] >= ORDER[best[0]] else best
         return best
     if isinstance(e, ast.BinOp):
         a = classify_expr(ctx, LF, f, e.left, depth + 1, seen, narrow)
